@@ -22,6 +22,10 @@ import time
 
 VERIF = os.path.dirname(os.path.dirname(os.path.dirname(os.path.abspath(__file__))))
 REPO = os.path.abspath(os.environ.get("VERIF_REPO", "/repo"))
+# scratch copies (mutation self-tests, VERIF_REPO=...) get their own mirror crate / target dirs so that several can be
+# built at the same time; the registered commands always run on /repo and use the plain names
+_SFX = "" if REPO == "/repo" else "-" + hashlib.sha256(REPO.encode()).hexdigest()[:8]
+_KEEP = int(os.environ.get("VERIF_CACHE_KEEP", "4"))
 BUILD = os.path.join(VERIF, ".build")
 PYLIBDIR = "/root/.pyenv/versions/3.11.7/lib"
 PYO3_PYTHON = "/root/.pyenv/versions/3.11.7/bin/python3"
@@ -167,7 +171,7 @@ def ensure_ext():
         open(os.path.join(tmp, ".ok"), "w").write(h)
         shutil.rmtree(pkg, ignore_errors=True)
         os.rename(tmp, pkg)
-        _evict(os.path.join(BUILD, "pkg"), 4)
+        _evict(os.path.join(BUILD, "pkg"), _KEEP)
     return pkg
 
 
@@ -223,7 +227,7 @@ def _write_if_changed(path, data):
 
 
 def _gen_mirror():
-    d = os.path.join(BUILD, "mirror")
+    d = os.path.join(BUILD, "mirror" + _SFX)
     os.makedirs(os.path.join(d, "src"), exist_ok=True)
     bins = "".join('\n[[bin]]\nname = "%s"\npath = "%s"\n' % (b, os.path.join(VERIF, "rs", "bins", b + ".rs"))
                    for b in MIRROR_BINS)
@@ -268,11 +272,11 @@ def ensure_mirror():
     if os.path.exists(ok):
         os.utime(bdir)
         return {b: os.path.join(bdir, b) for b in MIRROR_BINS}
-    with _Lock("mirror"):
+    with _Lock("mirror" + _SFX):
         if not os.path.exists(ok):
             d = _gen_mirror()
             env = _env()
-            env["CARGO_TARGET_DIR"] = os.path.join(BUILD, "mirror-target")
+            env["CARGO_TARGET_DIR"] = os.path.join(BUILD, "mirror-target" + _SFX)
             _forget_fingerprints(env["CARGO_TARGET_DIR"])
             _run(["cargo", "build", "--release", "--offline", "--bins"], cwd=d, env=env, what="mirror crate (E2)")
             tmp = bdir + ".tmp%d" % os.getpid()
@@ -283,7 +287,7 @@ def ensure_mirror():
             open(os.path.join(tmp, ".ok"), "w").write(h)
             shutil.rmtree(bdir, ignore_errors=True)
             os.rename(tmp, bdir)
-            _evict(os.path.join(BUILD, "bin"), 4)
+            _evict(os.path.join(BUILD, "bin"), _KEEP)
     return {b: os.path.join(bdir, b) for b in MIRROR_BINS}
 
 
@@ -300,9 +304,9 @@ def ensure_fuzz():
     if os.path.exists(ok):
         os.utime(bdir)
         return {b: os.path.join(bdir, b) for b in FUZZ_TARGETS}
-    with _Lock("fuzz"):
+    with _Lock("fuzz" + _SFX):
         if not os.path.exists(ok):
-            with _Lock("mirror"):
+            with _Lock("mirror" + _SFX):
                 d = _gen_mirror()
             fd = os.path.join(d, "fuzz")
             os.makedirs(fd, exist_ok=True)
@@ -332,7 +336,7 @@ gufo_snmp = { path = ".." }
             os.makedirs(os.path.join(fd, ".cargo"), exist_ok=True)
             _write_if_changed(os.path.join(fd, ".cargo", "config.toml"), "[net]\noffline = true\n")
             env = _env()
-            env["CARGO_TARGET_DIR"] = os.path.join(BUILD, "fuzz-target")
+            env["CARGO_TARGET_DIR"] = os.path.join(BUILD, "fuzz-target" + _SFX)
             _forget_fingerprints(env["CARGO_TARGET_DIR"], ("x86_64-unknown-linux-gnu/release",))
             _run(["cargo", "+nightly", "fuzz", "build", "-O", "--fuzz-dir", fd], cwd=d, env=env, what="fuzz targets (E3)")
             tmp = bdir + ".tmp%d" % os.getpid()
